@@ -2,7 +2,7 @@
    [ok] re-computes each call with the model of Sys/C34Funcs.v. *)
 From Coq Require Import List NArith ZArith Bool.
 Import ListNotations.
-From GMS Require Import Base.CorrLib Sys.C34Funcs.
+From GMS Require Import Base.CorrLib Sys.C34Funcs Sys.C34More.
 Open Scope Z_scope.
 
 Inductive arg :=
@@ -47,6 +47,12 @@ Fixpoint all_strs (l : list arg) : option (list (option (list N))) :=
   | a :: r => match a_str a, all_strs r with Some x, Some t => Some (x :: t) | _, _ => None end
   end.
 
+Fixpoint all_ints (l : list arg) : option (list (option Z)) :=
+  match l with
+  | [] => Some []
+  | a :: r => match a_int a, all_ints r with Some x, Some t => Some (x :: t) | _, _ => None end
+  end.
+
 Definition model (fn : N) (args : list arg) : option obs :=
   match fn, args with
   | 1%N, [a] => match a_str a with Some s => Some (o_int (char_length s)) | _ => None end
@@ -89,6 +95,49 @@ Definition model (fn : N) (args : list arg) : option obs :=
                     | Some (k, x), Some d => Some (o_num k (truncate_num k x d)) | _, _ => None end
   | 26%N, [a] => match a_num a with Some (k, x) => Some (o_int (ceil_num k x)) | None => None end
   | 27%N, [a] => match a_num a with Some (k, x) => Some (o_int (floor_num k x)) | None => None end
+  | 28%N, [AInt dir; a; b] => match a_str a, a_str b with Some p, Some t => Some (o_str (trim dir p t)) | _, _ => None end
+  | 29%N, [a] => match a_str a with Some t => Some (o_str (ltrim_fn t)) | None => None end
+  | 30%N, [a] => match a_str a with Some t => Some (o_str (rtrim_fn t)) | None => None end
+  | 31%N, [a; b; c] => match a_str a, a_str b, a_str c with
+                       | Some x, Some y, Some z => Some (o_str (replace x y z)) | _, _, _ => None end
+  | 32%N, [a] => match a_str a with Some t => Some (o_cps (upper_fn t)) | None => None end
+  | 33%N, [a] => match a_str a with Some t => Some (o_cps (lower_fn t)) | None => None end
+  | 34%N, [AInt n] => Some (OStr (bin_num n))
+  | 34%N, [AUInt n] => Some (OStr (fmt_uint 2 n))
+  | 34%N, [ANull] => Some ONull
+  | 35%N, [AInt n] => Some (o_str (oct_num n))
+  | 35%N, [AUInt n] => Some (o_str (conv (Some (fmt_uint 10 n)) (Some 10) (Some 8)))
+  | 35%N, [ANull] => Some ONull
+  | 36%N, [AInt n] => Some (OStr (hex_num n))
+  | 36%N, [AUInt n] => Some (OStr (fmt_uint 16 n))
+  | 37%N, [AInt n] => Some (OInt (abs_int n))
+  | 37%N, [AUInt n] => Some (OInt n)
+  | 37%N, [ADec m sc] => Some (ODec (Z.abs m) sc)
+  | 37%N, [ANull] => Some ONull
+  | 38%N, [AInt n] => Some (OInt (sign_num n))
+  | 38%N, [AUInt n] => Some (OInt (sign_num n))
+  | 38%N, [ADec m sc] => Some (OInt (sign_dec m sc))
+  | 38%N, [ANull] => Some ONull
+  | 39%N, [AInt a; AInt b] => Some (match mod_int a b with Some r => OInt r | None => ONull end)
+  | 39%N, [ANull; _] | 39%N, [_; ANull] => Some ONull
+  | 40%N, [AStr t] => Some (OInt (ascii_fn t))
+  | 40%N, [ANull] => Some ONull
+  | 41%N, [AStr t] => Some (OInt (ord_fn t))
+  | 41%N, [ANull] => Some ONull
+  | 42%N, l => match all_ints l with Some ns => Some (OStr (char_fn ns)) | None => None end
+  | 43%N, [a; b; c] => match a_str a, a_str b, a_int c with
+                       | Some (Some t), Some (Some (x :: d)), Some (Some k) =>
+                           Some (OStr (substring_index_core (utf8 t) (utf8 (x :: d)) k))
+                       | Some None, Some _, Some _ | Some _, Some None, Some _ | Some _, Some _, Some None => Some ONull
+                       | _, _, _ => None end
+  | 44%N, [a; b] => match a_str a, a_str b with
+                    | Some (Some x), Some (Some y) => Some (OInt (strcmp_core (utf8 x) (utf8 y)))
+                    | Some _, Some _ => Some ONull | _, _ => None end
+  | 45%N, k :: l => match a_str k, all_strs l with Some key, Some vals => Some (OInt (field_fn key vals)) | _, _ => None end
+  | 46%N, k :: l => match a_int k, all_strs l with
+                    | Some n, Some vals => Some (o_opt (option_map utf8 (elt_fn n vals))) | _, _ => None end
+  | 47%N, k :: l => match a_str k, all_strs l with
+                    | Some sep, Some vals => Some (o_cps (concat_ws sep vals)) | _, _ => None end
   | _, _ => None
   end.
 
